@@ -16,7 +16,7 @@ func init() {
 			Assumptions: []string{"reference decoders are trusted as the format definitions", "small-scope hypothesis as in C01"},
 			Families:    func(tier string) []engine.Family { return streamFamilies(tier, c07Body) },
 			Bounds: func(tier string) map[string]interface{} {
-				return map[string]interface{}{"max_tree_nodes": tierPick(tier, 4, 6), "leaf_alphabet": tierPick(tier, 3, 4), "string_atoms_max": tierPick(tier, 2, 3)}
+				return map[string]interface{}{"max_tree_nodes": tierPick(tier, 5, 6), "leaf_alphabet": tierPick(tier, 3, 4), "string_atoms_max": tierPick(tier, 2, 3)}
 			},
 			Require: []string{"documents_judged", "json_bytes_checked"},
 		})
